@@ -1008,7 +1008,8 @@ height).  Then after ANY chain (`TightSteps`, any length, any interleaving) of
  · slashes by the model's `VS.slash` — distribution hook, period bookkeeping, event appended, tokens burnt — whose recorded
    fraction is exact (`slashExact`; `slash_fraction_closed_form`: always within 10⁻³⁶, exact whenever digits 19…36 of the
    quotient are not all zero),
- · reward allocations, successful reward withdrawals,
+ · reward allocations, successful reward withdrawals, successful delegations (staking `Delegate` with its hooks: truncated
+   shares are issued, which does not lower anybody else's worth),
  · successful share transfers between two accounts through the INTERPRETED body of `handlerTransferShares` (`cfg.prog`: the
    two hand-written starting infos are tight) and
  · passing blocks / status changes,
@@ -1186,6 +1187,14 @@ example : ∃ v' h', TightSteps cfg 4 (reachVS 4 1 [(2000000000000000000000, 0)]
     v'.slashes.length = 1 ∧ v'.tokens = 1995000000000000000000 ∧ h' = 4 :=
   ⟨_, _, .slash 1 50000000000000000 (by decide) (.alloc 77 (.blocks 3 true false false 0 (.refl _ _))),
    by decide, by decide, by decide, rfl⟩
+-- … and a chain that also contains a delegation (account 1 bonds 500 coins after the slash: shares are issued at the
+-- slashed rate, truncated) and a withdrawal of the operator
+example : ∃ v' h', TightSteps cfg 4 (reachVS 4 1 [(2000000000000000000000, 0)] [] 0) 1 v' h' ∧
+    v'.tokens = 2495000000000000000000 ∧ (v'.del 1).isSome = true ∧ v'.slashes.length = 1 :=
+  ⟨_, _, .slash 1 50000000000000000 (by decide)
+      (.delegate 1 500000000000000000000 0 (by decide) (by decide) (by decide) rfl
+        (.blocks 1 true false false 0 (.withdraw 0 0 (by decide) rfl (.refl _ _)))),
+   by decide, by decide, by decide⟩
 example : slashExact (min (dMul (1 * POWER_REDUCTION * ONE) 50000000000000000 / ONE) 2000000000000000000000) 2000000000000000000000 = true := by
   decide
 
